@@ -238,6 +238,8 @@ class Methods:
 
     def list_of_set(self, st, v, et):
         ex, m = self.ex, self.m
+        if isinstance(v, Ref) and isinstance(st.heap[v.id], SetObj) and st.heap[v.id].enum is not None:
+            return st.alloc(ListObj(sv=st.heap[v.id].enum))
         L = ex.fresh(st, "setlist", ("list", et))
         ln, at = m.lst_funcs(et)
         term = ex.to_term(st, v, ("set", et))
